@@ -166,7 +166,8 @@ def prune_old(keep):
 def build(harness_c, flavor="asan", images=(("s", "server"), ("ca", "client")), extra_srcs=()):
     """Returns path of the linked harness binary (cached by content hash)."""
     harness_c = os.path.abspath(harness_c)
-    key = tree_key(flavor, [harness_c] + [os.path.abspath(x) for x in extra_srcs])
+    # a harness may #include another one (ea2.c includes ea.c): all of props/ is part of the key
+    key = tree_key(flavor, [harness_c] + [os.path.abspath(x) for x in extra_srcs] + sorted(glob.glob(os.path.join(VERIF, "props", "*.[ch]"))))
     imgkey = "-".join(p for p, _ in images)
     d = os.path.join(BUILD, "%s-%s" % (flavor, tree_key(flavor, [])))
     exe = os.path.join(d, "%s-%s-%s" % (os.path.basename(harness_c)[:-2], imgkey, key))
